@@ -52,3 +52,31 @@ Example C18_limit_is_1023 :
   ok (nest_maps 1023) = (true, true) /\ ok (nest_maps 1024) = (false, false) /\
   ok (nest_keys 1023) = (true, true) /\ ok (nest_keys 1024) = (false, false).
 Proof. vm_compute. repeat split. Qed.
+
+(* The limit for EVERY value, not three shapes: whatever the value - arrays,
+   maps, mixtures, collections in key position, any lengths - both document
+   loops read its encoding to the end if and only if fewer than 1024
+   collections surround its innermost value; a value that is one level too deep
+   (or more) is refused with the depth-limit error; so the verdict at a depth
+   is the same for every shape. *)
+From XtModel Require Import MsgpackCodecProofs MsgpackDecProofs MsgpackDepthProofs.
+
+Theorem C18_msgpack_limit_exact :
+  forall (utf8_valid : bytes -> bool) (v : mval),
+    wfb utf8_valid v = true ->
+    (mm_ok (transcode_reader utf8_valid (enc_val v)) = true <-> depth v < DEPTH_LIMIT) /\
+    (mm_ok (transcode_slice utf8_valid (enc_val v)) = true <-> depth v < DEPTH_LIMIT).
+Proof. exact msgpack_limit_exact. Qed.
+
+Theorem C18_too_deep_is_a_depth_error :
+  forall (utf8_valid : bytes -> bool) (ext_ok : bool) (v : mval),
+    wfb utf8_valid v = true -> forall (d : nat) (tail : bytes), 1 <= d -> d <= depth v ->
+      snd (D utf8_valid ext_ok (enc_val v ++ tail) d) = DErr DDepth.
+Proof. exact decode_too_deep. Qed.
+
+Theorem C18_verdict_depends_on_depth_only :
+  forall (utf8_valid : bytes -> bool) (v w : mval),
+    wfb utf8_valid v = true -> wfb utf8_valid w = true -> depth v = depth w ->
+    mm_ok (transcode_reader utf8_valid (enc_val v)) = mm_ok (transcode_reader utf8_valid (enc_val w)) /\
+    mm_ok (transcode_slice utf8_valid (enc_val v)) = mm_ok (transcode_slice utf8_valid (enc_val w)).
+Proof. exact verdict_depends_on_depth_only. Qed.
